@@ -202,6 +202,21 @@ C15Image(H, E, c, S) ==
             Fail(IF got = DevSubFirst(H, E, S, c) THEN "C15.image.subprograms_first" ELSE "C15.image", c,
                  <<"exported", Len(got), "expected", Len(want)>>))
        \cup When(S.openql.same_twice, Fail("C15.names", c, "two exports of the same circuit differ"))
+       \* through the real OpenQL compiler (directed programs only): what it schedules for execution is, qubit by qubit, what
+       \* it received; and what it received is the recorded listing (advisory: instruction spelling is OpenQL's)
+       \cup (IF S.openql.real.status = "none" THEN {}
+             ELSE IF S.openql.real.status # "ok" THEN {Fail("C15.real.compile", c, S.openql.real.status)}
+             ELSE LET R == S.openql.real
+                      Of(t, q) == LET m == {j \in 1..Len(t) : t[j][1] = q} IN IF m = {} THEN <<>> ELSE t[CHOOSE j \in m : TRUE][2]
+                      Qs == {R.received[j][1] : j \in 1..Len(R.received)} \cup {R.executed[j][1] : j \in 1..Len(R.executed)}
+                      Spell(o) == IF o.name = "prepz" THEN "prep_z" ELSE IF o.name = "wait" /\ o.args = <<0>> THEN "barrier" ELSE o.name
+                      Listed(q) == LET sel == SelectSeq(got, LAMBDA o : \E j \in 1..Len(o.targets) : o.targets[j] = <<"q", q>>)
+                                   IN [j \in 1..Len(sel) |-> Spell(sel[j])]
+                  IN UNION {When(Of(R.executed, q) = Of(R.received, q),
+                                 Fail("C15.real.executed", c, <<"qubit", q, "scheduled", Of(R.executed, q), "received", Of(R.received, q)>>))
+                            \cup When(Of(R.received, q) = Listed(q),
+                                      Fail("D15.real.received", c, <<"qubit", q, "OpenQL received", Of(R.received, q), "recorded listing", Listed(q)>>))
+                            : q \in Qs})
 
 \* ------------------------------------------------- the battery for one observation
 ObsClauses(H, E, c, S, flags) ==
@@ -232,7 +247,7 @@ SpecSnapshot(H, E, c) ==
   LET order == LeavesOf(H, c)
       meas(i) == H[i].kind = "DispersiveMeasure"
       mseq == SelectSeq(order, meas) IN
-  [top |-> c, order |-> order, order2 |-> order, by_q |-> <<>>, by_tag |-> <<>>, stim_m |-> [status |-> "none", targets |-> <<>>], stim |-> [status |-> "none", flat |-> <<>>], openql |-> [status |-> "none", flat |-> <<>>, names |-> <<>>, same_twice |-> TRUE],
+  [top |-> c, order |-> order, order2 |-> order, by_q |-> <<>>, by_tag |-> <<>>, stim_m |-> [status |-> "none", targets |-> <<>>], stim |-> [status |-> "none", flat |-> <<>>], openql |-> [status |-> "none", flat |-> <<>>, names |-> <<>>, same_twice |-> TRUE, real |-> [status |-> "none", received |-> <<>>, executed |-> <<>>]],
    leaves |-> [i \in Range(order) |->
       [kind |-> H[i].kind, qs |-> H[i].qs, chans |-> H[i].chans, dur |-> H[i].dur, tag |-> H[i].tag, pos |-> IndexIn(order, i), home |-> H[i].home, rlink |-> H[i].link,
        start |-> StartOf(H, E, i), dur_v |-> DurOf(H, E, i), end |-> EndOf(H, E, i), start_c |-> StartOf(H, E, i),
